@@ -489,7 +489,8 @@ def skeleton(F, fid, erase):
                     continue
                 n = {"changeWith": "changeTo"}.get(n, re.sub(r"With$", "", n))
                 obj = re.sub(r"^.*\.", "", ev[3] or "")
-                toks.append("%s.%s" % (obj, n) if obj else n)
+                na = len([a for a in (ev[4] or []) if not any(e in (a or "") for e in erase)])       # overloads: clear() vs clear(index)
+                toks.append(("%s.%s/%d" % (obj, n, na)) if obj else "%s/%d" % (n, na))
             elif ev[0] == "write":
                 toks.append("w:" + re.sub(r"^.*\.", "", ev[2]))
             elif ev[0] == "assume":
